@@ -91,7 +91,7 @@ def _tlc(cfg, module, workers, env_extra=None, timeout=3600, java_opts="-Xss1g",
     env["JAVA_TOOL_OPTIONS"] = java_opts
     if env_extra:
         env.update(env_extra)
-    cmd = ["java", "-XX:+UseParallelGC"]
+    cmd = ["java", "-XX:+UseParallelGC", "-Djava.io.tmpdir=" + md]      # TLC's scratch directory goes away with md
     if heap:
         cmd.append("-Xmx" + heap)
     cmd += ["-cp", TLC_JAR, "tlc2.TLC", "-workers", str(workers), "-metadir", md, "-cleanup",
